@@ -1,6 +1,11 @@
 package main
 
-import "strings"
+import (
+	"strings"
+	"sync/atomic"
+)
+
+var failedSoFar atomic.Int64
 
 // stripQuantified drops every assertion that contains a quantifier. What remains is weaker than
 // the original set of assumptions, so a model of it is only a *candidate* counterexample: it has
